@@ -340,7 +340,7 @@ def run_filter(acc, case):
                 lg.log(level, "m%d", i)
                 v = len(got) > n0
             else:
-                rec = logging.LogRecord("x", level, "f", 1, "m", (), None)
+                rec = logging.LogRecord(case["names"][i] if case.get("names") else "x", level, "f", 1, "m", (), None)
                 cr = case.get("created")
                 if cr:
                     # the record was created at another time than it reaches the filter (queued / replayed records): the
@@ -369,6 +369,8 @@ def run_filter(acc, case):
             acc.nontrivial.add(stable_hash(case))
         if real:
             acc.ev("filter-through-real-logger")
+        elif case.get("names") and len(set(case["names"])) > 1:
+            acc.ev("filter-shared-by-several-loggers")
     finally:
         pf.time = real_time
         if case.get("real_logger"):
@@ -582,6 +584,9 @@ def gen_case(rng, kind):
             recs = [[rng.choice([0.0, 0.0009765625, 0.001953125]), logging.INFO] for _ in range(1500)] + recs[:20]
             period = rng.choice([3, 4.0])
         c = {"kind": "filter", "period": period, "bypass": bypass, "records": recs, "real_logger": rng.random() < 0.5}
+        if rng.random() < 0.35:
+            # one filter that sees the records of several loggers (attached to a handler they share)
+            c["names"] = [rng.choice(["drive", "arm", "x", "vision"]) for _ in recs]
         if not c["real_logger"] and rng.random() < 0.5:
             t_, cr = 0.0, []
             for _ in recs:
